@@ -124,15 +124,17 @@ Theorem C12_local_setters_zero_offset : forall id t a,
 Proof. exact local_zero_offset. Qed.
 Print Assumptions C12_local_setters_zero_offset.
 
-(* otto tests the two-digit-year rule on the unconverted year: 99.5 is not "<= 99", -0.5 is not ">= 0" *)
-Theorem C12_twodigit_year_fraction_refuted :
-  (exists l, utcq_model l <> utcq l) /\ utcq_model [Some 99500; Some 0] = Some (-59042995200000) /\
-  utcq [Some 99500; Some 0] = Some 915148800000 /\ utcq [Some (-500); Some 0] = Some (-2208988800000).
-Proof.
-  split; [exists [Some 99500; Some 0]; vm_compute; discriminate|].
-  split; [|split]; vm_compute; reflexivity.
-Qed.
-Print Assumptions C12_twodigit_year_fraction_refuted.
+(* the two-digit-year rule is applied to ToInteger(year) (repaired by 875fefb): on arguments in thousandths the model
+   of newDateTime is 15.9.4.3 wherever the result is a time value; 99.5 -> 1999, -0.5 -> 1900 *)
+Theorem C12_twodigit_year_fraction : forall l r,
+  utc_raw (tointf l) = Some r -> Z.abs r <= maxTime -> utcq_model l = utcq l.
+Proof. exact utcq_model_in_range. Qed.
+Print Assumptions C12_twodigit_year_fraction.
+
+Example C12_twodigit_year_fraction_witness :
+  utcq_model [Some 99500; Some 0] = Some 915148800000 /\ utcq_model [Some (-500); Some 0] = Some (-2208988800000) /\
+  utcq_model [Some 100500; Some 0] = Some (-59011459200000).
+Proof. vm_compute. repeat split; reflexivity. Qed.
 
 Example C12_surplus_hyp_met : length [Some 5; Some 6] = arity 5 /\
   set_spec 5 (Some 0) ([Some 5; Some 6] ++ [None]) = set_spec 5 (Some 0) [Some 5; Some 6].
